@@ -844,6 +844,7 @@ func classify(c Case, out string, refTrace, gotTrace string, depth int) string {
 	if err != nil {
 		return ""
 	}
+	fallback := ""
 	for _, f := range inputRewrites {
 		code2, n := f.rewrite(c.Code, pi)
 		if n == 0 || code2 == c.Code {
@@ -858,7 +859,7 @@ func classify(c Case, out string, refTrace, gotTrace string, depth int) string {
 		}
 		c2 := c
 		c2.Code = code2
-		v2 := judgeDepth(c2, depth+1)
+		v2, confirmed2 := judgeInner(c2, depth+1)
 		refused := false
 		for _, cl := range v2.Classes {
 			if strings.HasPrefix(cl, "esbuild-refused") {
@@ -866,7 +867,7 @@ func classify(c Case, out string, refTrace, gotTrace string, depth int) string {
 			}
 		}
 		if debugClassify {
-			fmt.Printf("classify depth=%d rewrite %s -> ok=%v known=%q discard=%q refused=%v sameObserved=%v\n", depth, f.id, v2.OK, v2.Known, v2.Discard, refused, strings.HasPrefix(v2.Observed, gotTrace+"\n--- output"))
+			fmt.Printf("classify depth=%d rewrite %s -> ok=%v known=%q confirmed=%v discard=%q refused=%v sameObserved=%v\n", depth, f.id, v2.OK, v2.Known, confirmed2, v2.Discard, refused, strings.HasPrefix(v2.Observed, gotTrace+"\n--- output"))
 		}
 		if v2.Discard != "" || refused {
 			continue
@@ -874,11 +875,17 @@ func classify(c Case, out string, refTrace, gotTrace string, depth int) string {
 		if v2.OK {
 			return f.id
 		}
-		// still failing, but only by other listed findings: the rewrite counts when it removed a part of the
-		// failure (the observed trace changed); a rewrite without effect explains nothing
-		if v2.Known != "" && !strings.HasPrefix(v2.Observed, gotTrace+"\n--- output") {
-			return f.id
+		// Still failing, but the rest is explained by other listed findings THROUGH repairs / rewrites that end
+		// in a correct program (a static-signature match of the rest does not count: this rewrite may have
+		// been without effect). Prefer a rewrite that changed the observed behaviour.
+		if v2.Known != "" && confirmed2 {
+			if !strings.HasPrefix(v2.Observed, gotTrace+"\n--- output") {
+				return f.id
+			}
+			if fallback == "" {
+				fallback = f.id
+			}
 		}
 	}
-	return ""
+	return fallback
 }
